@@ -2,7 +2,8 @@
   Model/C11.lean — 8-bit (p3binary8, p4binary8), micro-scaling (e5m2/e4m3/e3m2/e2m3/e2m1 mxfp, e8m0mxfp, mxint8)
   and bfloat codecs, and the Dtype scale.
 
-  SPEC layer
+  SPEC layer (the table formats' part lives in Model/C11_Spec.lean, import-free, so that a table obligation depends only
+  on the specification and on its own table)
     * `FVal` — exact values: NaN, ±inf, or (−1)^neg · m · 2^e in canonical form (m odd, or m = e = 0);
       `ieeeVal ebits mbits` — the IEEE-754 interchange-format meaning of a bit pattern (binary16/32/64);
     * `Fmt = (E, M, bias, lim, kind)`, `Fmt.mag` (|value|·2^24 of a magnitude code), `decodeSpec` (what every code of
@@ -24,6 +25,7 @@
       (round to nearest, ties to even).  That part is trusted (CPython/C runtime), not verified.
 -/
 import BitstringModel.Model.Basic
+import BitstringModel.Model.C11_Spec
 import BitstringModel.Gen.Luts
 namespace BM.C11
 
@@ -46,53 +48,6 @@ def toHexList : Nat → Nat → List Char → List Char
   | d + 1, n, acc => toHexList d (n / 16) (hexDigitChar (n % 16) :: acc)
 
 def toHex (digits n : Nat) : String := String.ofList (toHexList digits n [])
-
-/-! ## SPEC: exact values -/
-
-/-- An exact value: NaN, ±∞, or `(−1)^neg · m · 2^e`.  Canonical: `m` odd, or `m = 0 ∧ e = 0`
-    (so a signed zero is `fin neg 0 0`) — values are compared with `=`. -/
-inductive FVal where
-  | nan
-  | inf (neg : Bool)
-  | fin (neg : Bool) (m : Nat) (e : Int)
-  deriving DecidableEq, Repr, Inhabited
-
-/-- Strip trailing zero bits of `m ≠ 0`: `m·2^e = m'·2^e'` with `m'` odd (fuel ≥ number of trailing zeros of `m`). -/
-def stripZeros : Nat → Nat → Int → Nat × Int
-  | 0, m, e => (m, e)
-  | fuel + 1, m, e => if m % 2 = 0 then stripZeros fuel (m / 2) (e + 1) else (m, e)
-
-/-- Binary search for trailing zeros: strips `2^(2^(k-1))`, …, `2^2`, `2^1` whenever it divides `m`
-    (complete when `m ≠ 0` has fewer than `2^k` trailing zeros). -/
-def stripZerosFast : Nat → Nat → Int → Nat × Int
-  | 0, m, e => (m, e)
-  | k + 1, m, e =>
-    if m % 2 ^ (2 ^ k) = 0 then stripZerosFast k (m / 2 ^ (2 ^ k)) (e + (2 ^ k : Nat)) else stripZerosFast k m e
-
-/-- The canonical form of `(−1)^neg · m · 2^e`: all trailing zero bits of `m` moved into the exponent
-    (binary search first — the Lean kernel evaluates the one-bit loop slowly — then the loop, which finds nothing
-    left unless `m` had 8192 or more trailing zeros). -/
-def FVal.mk (neg : Bool) (m : Nat) (e : Int) : FVal :=
-  if m = 0 then .fin neg 0 0
-  else
-    let q := stripZerosFast 13 m e
-    let r := stripZeros q.1 q.1 q.2
-    .fin neg r.1 r.2
-
-/-- IEEE 754-2019 §3.4: the value of a binary interchange-format bit pattern with `ebits` exponent bits and
-    `mbits` trailing-significand bits (binary16 = 5/10, binary32 = 8/23, binary64 = 11/52). -/
-def ieeeVal (ebits mbits b : Nat) : FVal :=
-  let s := decide (b / 2 ^ (ebits + mbits) % 2 = 1)
-  let e := b / 2 ^ mbits % 2 ^ ebits
-  let m := b % 2 ^ mbits
-  let bias : Int := 2 ^ (ebits - 1) - 1
-  if e = 2 ^ ebits - 1 then (if m = 0 then .inf s else .nan)
-  else if e = 0 then FVal.mk s m (1 - bias - mbits)
-  else FVal.mk s (2 ^ mbits + m) (e - bias - mbits)
-
-def f64Val (b : Nat) : FVal := ieeeVal 11 52 b
-def f32Val (b : Nat) : FVal := ieeeVal 8 23 b
-def halfVal (b : Nat) : FVal := ieeeVal 5 10 b
 
 /-! ## IEEE rounding of an exact value (round to nearest, ties to even) — the float runtime -/
 
@@ -240,133 +195,6 @@ def unpackIEEE (ebits mbits b : Nat) : Nat :=
   | .inf s => f64Inf s
   | .fin s m e => f64OfDyadic s m e
 
-/-! ## SPEC: the seven table-driven formats -/
-
-inductive Mode where | saturate | overflow
-  deriving DecidableEq, Repr, Inhabited
-
-inductive Kind where
-  | binary8   -- IEEE P3109 draft: single zero, NaN at 0x80, ±inf at 0x7f/0xff
-  | e5m2      -- OCP: ±0, ±inf at 0x7c/0xfc, NaN at 0x7d..0x7f / 0xfd..0xff
-  | e4m3      -- OCP: ±0, no inf, NaN at 0x7f/0xff
-  | small     -- OCP 6- and 4-bit: ±0, no inf, no NaN
-  deriving DecidableEq, Repr, Inhabited
-
-/-- A sign-magnitude format: `E` exponent bits, `M` mantissa bits, exponent bias, `lim` = the first magnitude code
-    that is not a finite number (the inf/NaN slot; for the small formats the code after the last one), kind of specials. -/
-structure Fmt where
-  E : Nat
-  M : Nat
-  bias : Nat
-  lim : Nat
-  kind : Kind
-  deriving DecidableEq, Repr
-
-def Fmt.p3 : Fmt := ⟨5, 2, 16, 0x7f, .binary8⟩
-def Fmt.p4 : Fmt := ⟨4, 3, 8, 0x7f, .binary8⟩
-def Fmt.e5m2 : Fmt := ⟨5, 2, 15, 0x7c, .e5m2⟩
-def Fmt.e4m3 : Fmt := ⟨4, 3, 7, 0x7f, .e4m3⟩
-def Fmt.e3m2 : Fmt := ⟨3, 2, 3, 32, .small⟩
-def Fmt.e2m3 : Fmt := ⟨2, 3, 1, 32, .small⟩
-def Fmt.e2m1 : Fmt := ⟨2, 1, 1, 8, .small⟩
-
-def Fmt.width (f : Fmt) : Nat := 1 + f.E + f.M
-def Fmt.signBit (f : Fmt) : Nat := 2 ^ (f.E + f.M)
-
-/-- `|value| · 2^24` of the magnitude code `c` (exponent field `c / 2^M`, mantissa field `c % 2^M`):
-    subnormal `m/2^M · 2^(1−bias)`, normal `(1 + m/2^M) · 2^(e−bias)`.  Defined for every `c` (also for `lim`:
-    "as if it were still a number").  All seven formats have `bias + M ≤ 25`, so the exponents below do not truncate. -/
-def Fmt.mag (f : Fmt) (c : Nat) : Nat :=
-  let e := c / 2 ^ f.M
-  let m := c % 2 ^ f.M
-  if e = 0 then m * 2 ^ (25 - f.bias - f.M) else (2 ^ f.M + m) * 2 ^ (24 + e - f.bias - f.M)
-
-/-- What the code `code` (sign bit, then `E` exponent bits, then `M` mantissa bits) means. -/
-def decodeSpec (f : Fmt) (code : Nat) : FVal :=
-  let s := decide (code / f.signBit % 2 = 1)
-  let c := code % f.signBit
-  match f.kind with
-  | .binary8 => if code = 0x80 then .nan else if c = 0x7f then .inf s else FVal.mk s (f.mag c) (-24)
-  | .e5m2 => if c = 0x7c then .inf s else if 0x7c < c then .nan else FVal.mk s (f.mag c) (-24)
-  | .e4m3 => if c = 0x7f then .nan else FVal.mk s (f.mag c) (-24)
-  | .small => FVal.mk s (f.mag c) (-24)
-
-/-- A half-precision pattern: NaN, ±inf, or sign and `|value| · 2^24`. -/
-inductive HalfClass where
-  | nan
-  | inf (neg : Bool)
-  | fin (neg : Bool) (x : Nat)
-  deriving DecidableEq, Repr
-
-def halfClass (h : Nat) : HalfClass :=
-  let s := decide (h / 32768 % 2 = 1)
-  let e := h / 1024 % 32
-  let m := h % 1024
-  if e = 31 then (if m = 0 then .inf s else .nan)
-  else if e = 0 then .fin s m
-  else .fin s ((1024 + m) * 2 ^ (e - 1))
-
-def HalfClass.toFVal : HalfClass → FVal
-  | .nan => .nan
-  | .inf s => .inf s
-  | .fin s x => FVal.mk s x (-24)
-
-def dist (a b : Nat) : Nat := if a ≤ b then b - a else a - b
-
-/-- `c` is the magnitude code whose value is nearest to `x` (scaled by 2^24) on the grid of codes `0 … lim`
-    (the first unavailable code taken as if it were still a number); on a tie the even code wins. -/
-def IsNearestEven (f : Fmt) (x c : Nat) : Prop :=
-  c ≤ f.lim ∧ ∀ c', c' ≤ f.lim → c' ≠ c →
-    dist x (f.mag c) < dist x (f.mag c') ∨ (dist x (f.mag c) = dist x (f.mag c') ∧ c % 2 = 0)
-
-def nanCode (f : Fmt) : Nat := match f.kind with | .binary8 => 0x80 | _ => 0xff
-
-/-- The code for an out-of-range value (doc/exotic_floats.rst "Conversion"): binary8 → ±inf; e5m2 → ±max finite
-    (saturate) or ±inf (overflow); e4m3 → ±max finite (saturate) or NaN (overflow); 6/4-bit → ±max. -/
-def ovfCode (f : Fmt) (mode : Mode) (neg : Bool) : Nat :=
-  let sb := if neg then f.signBit else 0
-  match f.kind, mode with
-  | .binary8, _ => sb + 0x7f
-  | .e5m2, .saturate => sb + 0x7b
-  | .e5m2, .overflow => sb + 0x7c
-  | .e4m3, .saturate => sb + 0x7e
-  | .e4m3, .overflow => 0xff
-  | .small, _ => sb + (f.lim - 1)
-
-/-- The full code for sign `neg` and selected magnitude code `c`: overflow code when the unavailable code is
-    selected; binary8 has a single zero (−0 and negative values that round to zero give 0x00); otherwise sign + c. -/
-def outCode (f : Fmt) (mode : Mode) (neg : Bool) (c : Nat) : Nat :=
-  if c = f.lim then ovfCode f mode neg
-  else if c = 0 ∧ f.kind = .binary8 then 0
-  else (if neg then f.signBit else 0) + c
-
-/-- What the float16→code table must hold at index `h`.  (For the 6/4-bit formats a NaN never reaches the table:
-    `e3m2mxfp2bitstore` etc. raise ValueError first, so those entries are not constrained.) -/
-def EncodeSpec (f : Fmt) (mode : Mode) (h code : Nat) : Prop :=
-  match halfClass h with
-  | .nan => f.kind = .small ∨ code = nanCode f
-  | .inf s => code = ovfCode f mode s
-  | .fin s x => ∃ c, IsNearestEven f x c ∧ code = outCode f mode s c
-
-/-- Neighbour test: `x` is not nearer to `c−1` or `c+1` than to `c` (ties only if `c` is even). -/
-def localNE (f : Fmt) (x c : Nat) : Bool :=
-  (c == 0 ||
-    (let s := f.mag (c - 1) + f.mag c
-     decide (s < 2 * x) || (s == 2 * x && c % 2 == 0)))
-  && (c == f.lim ||
-    (let s := f.mag c + f.mag (c + 1)
-     decide (2 * x < s) || (s == 2 * x && c % 2 == 0)))
-
-/-- Boolean checker for `EncodeSpec` (sound by `encChk_sound` in Proofs/C11.lean). -/
-def encChk (f : Fmt) (mode : Mode) (h code : Nat) : Bool :=
-  match halfClass h with
-  | .nan => f.kind == .small || code == nanCode f
-  | .inf s => code == ovfCode f mode s
-  | .fin s x =>
-    let c2 := code - (if s then f.signBit else 0)
-    (localNE f x f.lim && code == outCode f mode s f.lim)
-    || (decide (c2 ≤ f.lim) && localNE f x c2 && code == outCode f mode s c2)
-
 /-! ## GEN: the live tables -/
 
 /-- The nine format objects of fp8.py:115-116 and mxfp.py:189-195. -/
@@ -399,23 +227,9 @@ def Tbl.clamp : Tbl → Nat × Nat
   | .p3 => Gen.clampP3 | .p4 => Gen.clampP4 | .e5m2s => Gen.clampE5M2S | .e5m2o => Gen.clampE5M2O
   | .e4m3s => Gen.clampE4M3S | .e4m3o => Gen.clampE4M3O | .e3m2 => Gen.clampE3M2 | .e2m3 => Gen.clampE2M3 | .e2m1 => Gen.clampE2M1
 
-/-- `lut[h]` on a `bytes` table stored as 256-entry blocks; `none` = IndexError. -/
-def encLookup (t : Array Nat) (h : Nat) : Option Nat :=
-  (t[h / 256]?).map fun blk => blk / 2 ^ (8 * (h % 256)) % 256
-
-/-- `p i` for every `i < n`. -/
-def allBelow : Nat → (Nat → Bool) → Bool
-  | 0, _ => true
-  | n + 1, p => p n && allBelow n p
-
-/-- Block `b` (entries `256b … 256b+255`) of the table satisfies the checker. -/
-def encBlockOk (t : Tbl) (b : Nat) : Bool :=
-  match t.enc[b]? with
-  | some blk => allBelow 256 fun j => encChk t.fmt t.mode (256 * b + j) (blk / 2 ^ (8 * j) % 256)
-  | none => false
-
-/-- Sixteen blocks = 4096 entries: the unit of the kernel obligations in Proofs/C11_Enc_*.lean. -/
-def encChunkOk (t : Tbl) (k : Nat) : Bool := allBelow 16 fun b => encBlockOk t (16 * k + b)
+/-- Block / chunk checkers of `Model/C11_Spec.lean` on the live table of `t`. -/
+def encBlockOk (t : Tbl) (b : Nat) : Bool := encBlockOkT t.enc t.fmt t.mode b
+def encChunkOk (t : Tbl) (k : Nat) : Bool := encChunkOkT t.enc t.fmt t.mode k
 
 /-! ## ALG: encoders -/
 
